@@ -277,7 +277,13 @@ def gen_solar(rng, geom=None, sun_kind=None, albedos=None):
                         (rng.randint(1, 12), rng.randint(1, 12)))
     c['sun_kind'] = sun_kind or rng.choice(['overhead', 'consistent', 'consistent', 'consistent',
                                             'random', 'random', 'nosun'])
+    # identity structure of the archetype list: entries may own the SAME wall / roof object (the shipped
+    # library holds one wall Element for all eras of `stripmall` and of `warehouse`)
+    c['alias'] = rng.choice(ALIASES) if c['nbem'] >= 2 and rng.random() < 0.6 else 'none'
     return c
+
+
+ALIASES = ('wall', 'roof', 'wall+roof', 'wall:last-two', 'entry')
 
 
 def fill_sun(rng, c, a):
@@ -316,7 +322,9 @@ def edge_solars():
                 dict(month=1), dict(month=12), dict(month=4), dict(month=10),
                 dict(vs=10, ve=4), dict(nbem=0), dict(tz=F(-3)), dict(zen=F(2)),
                 dict(a=F(1, 10), tz=F(40), crit=F(1, 4)),       # Kw clamp
-                dict(dir=F(0), dif=F(0))]:
+                dict(dir=F(0), dif=F(0)), dict(nbem=2, alias='wall'), dict(nbem=3, alias='wall+roof'),
+                dict(nbem=2, alias='entry'), dict(nbem=3, alias='wall:last-two', month=1),
+                dict(nbem=2, alias='wall', dir=F(0), dif=F(0))]:
         c = dict(base)
         c.update(upd)
         out.append(c)
@@ -334,6 +342,18 @@ def build_solar(pkg, c, ucm_class=None):
                treeCoverage=c['tree'], vegcover=c['vegc'], road=mk_road(pkg, c['ralb'], c['rveg']))
     geo = (u.canAspect, u.roadConf, u.wallConf, u.treeCoverage, u.road.vegcoverage, u.vegcover)
     bem = [NS(roof=NS(solRec=None), wall=NS(solRec=None)) for _ in range(c['nbem'])]
+    al = c.get('alias', 'none')
+    if al != 'none' and len(bem) >= 2:
+        if al == 'entry':                       # one archetype object listed twice
+            bem[-1] = bem[0]
+        elif al == 'wall:last-two':
+            bem[-1].wall = bem[-2].wall
+        else:
+            for b in bem[1:]:
+                if 'wall' in al:
+                    b.wall = bem[0].wall
+                if 'roof' in al:
+                    b.roof = bem[0].roof
     par = NS(vegStart=c['vs'], vegEnd=c['ve'], vegAlbedo=c['valb'], treeFLat=c['tfl'],
              grassFLat=c['gfl'])
     sc = pkg.SolarCalcs(u, bem, NS(month=c['month']), NS(), NS(dir=None, dif=None), par,
@@ -421,6 +441,19 @@ def oracle_solar(c, geo, o):
         return 'horSol negative'
     if o['roadSol'] != hor * kr + rc * c['dif'] or o['bldSol'] != hor * kw + wc * c['dif']:
         return 'first-incidence amounts are not the beam split plus sky view'
+    # every surface receives exactly the irradiance prescribed for its kind: first incidence plus the
+    # reflections the closure assigns to it, once - whatever the identity structure of the archetype list
+    if o['wall'] is not None and o['wall'] != o['bldSol'] + (1 - 2 * wc) * o['mw'] + wc * o['mr']:
+        return 'walls receive %s W/m2 but the canyon wall irradiance bldSol + (1-2 wallConf) mw + wallConf mr ' \
+               'is %s (archetype list aliasing: %s)' % (
+                   float(o['wall']), float(o['bldSol'] + (1 - 2 * wc) * o['mw'] + wc * o['mr']),
+                   c.get('alias', 'none'))
+    if o['road'] != o['roadSol'] + (1 - rc) * o['mw']:
+        return 'road receives %s W/m2, prescribed roadSol + (1 - roadConf) mw = %s' % (
+            float(o['road']), float(o['roadSol'] + (1 - rc) * o['mw']))
+    if o['roof'] is not None and (o['roof'] != hor + c['dif'] or o['rural'] != hor + c['dif']):
+        return 'roofs / rural site receive %s / %s W/m2, prescribed horSol + dif = %s' % (
+            float(o['roof']), float(o['rural']), float(hor + c['dif']))
     if c['sun_kind'] in ('overhead', 'consistent') and a > 0:
         # by construction 0 <= krRaw <= 1 under the stub table (theorem beam_exact)
         if kr < 0:
@@ -604,6 +637,115 @@ def float_pass(chk, n_geo):
     return n, problems, creation, stats
 
 
+# ------------------------------------------------------------------------------- live simulations
+TORONTO = 'tests/epw/CAN_ON_Toronto.716240_CWEC.epw'
+SINGAPORE = 'resources/SGP_Singapore.486980_IWEC.epw'
+
+
+def live_stock_runs(chk, violation):
+    """The short-wave and long-wave clauses on the canyon AS SIMULATED: real generate() + simulate() of one day
+    with building stocks whose archetypes are separate objects and with stocks whose archetypes own the same
+    wall / mass / roof Element in the shipped library (two or three eras of `stripmall` or `warehouse`; at zone 8
+    also standaloneretail/new + stripmall and supermarket/new + warehouse). Monitors wrapped around every
+    solarcalcs() and urbflux() call of the run (harness/s2_util.py)."""
+    import s2_util as S
+    rng = chk.rng
+    quick = chk.tier == 'quick'
+    work = chk.work()
+    runs = [
+        ('separate archetypes', [('largeoffice', 'pst80', 0.4), ('midriseapartment', 'pst80', 0.6)], '1A',
+         SINGAPORE, 7),
+        ('two eras of warehouse', [('warehouse', 'pre80', 0.5), ('warehouse', 'new', 0.5)], '1A', SINGAPORE,
+         rng.choice([1, 4, 7, 10])),
+        ('two eras of stripmall', [('stripmall', 'pre80', 0.3), ('stripmall', 'new', 0.7)], '5A', TORONTO,
+         rng.choice([1, 2, 12])),
+        ('standaloneretail/new + stripmall at zone 8', [('standaloneretail', 'new', 0.25),
+                                                        ('stripmall', 'pst80', 0.75)], '8', TORONTO, 10),
+    ]
+    if not quick:
+        runs += [
+            ('three eras of stripmall', [('stripmall', 'pre80', 0.25), ('stripmall', 'pst80', 0.25),
+                                         ('stripmall', 'new', 0.5)], '8', SINGAPORE, 3),
+            ('warehouse pst80 + new (roof shared as well)', [('warehouse', 'pst80', 0.6), ('warehouse', 'new', 0.4)],
+             '3B-CA', TORONTO, 6),
+            ('supermarket/new + warehouse at zone 8', [('supermarket', 'new', 0.5), ('warehouse', 'pre80', 0.5)],
+             '8', SINGAPORE, 9),
+            ('separate archetypes, cold', [('smalloffice', 'new', 0.3), ('hospital', 'pre80', 0.7)], '6A',
+             TORONTO, 1),
+            ('aliased + separate', [('warehouse', 'pre80', 0.2), ('largeoffice', 'new', 0.5),
+                                    ('warehouse', 'new', 0.3)], '4A', TORONTO, 4),
+        ]
+        for _ in range(6):
+            t = rng.choice(['stripmall', 'warehouse'])
+            e1, e2 = rng.sample(['pre80', 'pst80', 'new'], 2)
+            f = rng.choice([0.1, 0.25, 0.5, 0.8])
+            runs.append(('two eras of %s' % t, [(t, e1, f), (t, e2, 1 - f)],
+                         rng.choice(['1A', '2B', '3C', '4B', '5C', '6B', '7', '8']),
+                         rng.choice([TORONTO, SINGAPORE]), rng.randint(1, 12)))
+    nbad = nsteps = 0
+    meas = []
+    aliased = []
+    for label, bld, zone, epw, month in runs:
+        case = {'level': 'live', 'op': 'simulate', 'stock': bld, 'zone': zone, 'epw': epw, 'month': month, 'day': 1,
+                'nday': 1, 'dtsim': 300, 'what': label}
+        m = S.live_model(bld, zone=zone, epw=epw, month=month, outdir=work)
+        with core.quiet():
+            m.generate()
+        shared = S.identity_structure(m.BEM)
+        with S.Patch() as p:
+            sm = S.SolarMonitor(p)
+            im = S.InfraMonitor(p)
+            try:
+                with core.quiet():
+                    m.simulate()
+            except Exception as e:                               # noqa: BLE001
+                chk.notes.append('live run %s ended with %s: %s (the model\'s own fail-stop: a note, not a '
+                                 'verdict)' % (label, type(e).__name__, str(e)[:120]))
+        nsteps += sm.n_sun + sm.n_nosun + im.n
+        for kind, mon in (('short-wave', sm), ('long-wave', im)):
+            if mon.problems:
+                nbad += 1
+                first = [x for x in mon.problems if x][:3]
+                violation('%s exchange of the canyon as simulated (%s)' % (kind, label), case,
+                          '%d problem(s) in %d steps: %s' % (len(mon.problems), mon.n_sun + mon.n_nosun
+                                                             if kind == 'short-wave' else mon.n, ' | '.join(first)),
+                          'walls, roofs and road receive exactly the prescribed irradiance (zero without sun)'
+                          if kind == 'short-wave' else
+                          'one long-wave evaluation per archetype and one for the road against the stock-average '
+                          'wall temperature; road<->wall exchange equal and opposite when weighted by the areas; '
+                          'zero at equilibrium with the sky')
+        meas.append({'stock': label, 'zone': zone, 'month': month, 'sunlit_steps': sm.n_sun,
+                     'dark_steps': sm.n_nosun, 'urbflux_steps': im.n, 'equilibrium_replays': im.n_eq,
+                     'max_exchange_imbalance_as_simulated_W_m2': round(im.worst, 4),
+                     'max_exchange_imbalance_one_time_level_W_m2': float('%.3g' % im.worst_sync),
+                     'max_road_net_longwave_at_equilibrium_W_m2': float('%.3g' % im.worst_eq),
+                     'steps_with_a_wall_advanced_more_than_once': im.multi,
+                     'objects_shared_by_archetypes': shared[:4]})
+        if im.multi:
+            aliased.append((label, bld, zone, shared[:2], im.multi, im.n))
+    chk.direct('live-canyon-exchange(real generate+simulate; separate and aliased archetypes)', nsteps, nsteps,
+               '1-day runs (dt 300 s, Singapore / Toronto, several months) of stocks with separate archetypes and of '
+               'stocks whose archetypes own one wall / mass / roof Element in the shipped library (two / three eras '
+               'of stripmall or warehouse, cross-type pairs at zone 8; thorough: random eras, fractions, zones). '
+               'After every solarcalcs(): wall of every entry == bldSol + (1-2 wallConf) mw + wallConf mr, road, '
+               'roof and rural likewise, bit for bit, zero without sun. Around every urbflux(): one infracalcs '
+               'evaluation per entry + one for the road; the road evaluated against sum_j frac_j T_wall_j over all '
+               'entries (bit-exact, T_wall_j a temperature that wall took after an update of this step); '
+               'area-weighted road<->wall exchange within 25 W/m2 as simulated (one wall update of lag) and within '
+               '0.5 W/m2 at one time level; the step replayed every 48 steps with road, walls, air and sky at one '
+               'temperature: road net long-wave within 2 W/m2 of zero, first wall exactly zero',
+               mismatches=nbad, branches={r[0]: 1 for r in runs})
+    chk.measurements['live_canyon_exchange'] = meas
+    if aliased:
+        chk.notes.append(
+            'FINDING (unchanged tree, recorded - not a verdict): with a stock of two eras of stripmall / warehouse '
+            'the archetypes own ONE wall Element (shipped library, see C07/C19 notes): urbflux advances that wall '
+            'once per stock row (%s: more than one update per step in %d of %d steps), each row\'s long-wave is '
+            'evaluated at the intermediate state and the stock-average wall temperature mixes those states. The '
+            'C13 clauses still hold on such runs (irradiance exact; exchange imbalance as measured in '
+            'measurements.live_canyon_exchange)' % (aliased[0][0], aliased[0][4], aliased[0][5]))
+
+
 # ------------------------------------------------------------------------------- main
 def load_corpus():
     d = os.path.join(core.VERIF, 'corpus', 'C13')
@@ -706,6 +848,11 @@ def run(chk):
         sol_lines.append(solar_line(c, geo))
         sol_geo.append(geo)
         sol_obs.append(o)
+        if err == 'bem-differ':
+            violation('every archetype of the canyon receives the same wall / roof irradiance', case_json(c),
+                      'walls %s, roofs %s' % ([str(b.wall.solRec) for b in sc.BEM], [str(b.roof.solRec) for b in sc.BEM]),
+                      'one canyon wall irradiance and one roof irradiance for all entries (archetype list '
+                      'aliasing: %s)' % c.get('alias', 'none'))
         if err:
             sol_impl.append(err)
         elif o['roof'] is None:     # no archetype: roof/wall values are not assigned
@@ -731,7 +878,9 @@ def run(chk):
         'SolarCalcs.solarcalcs~solarcalcs[%s]' % ('spec' if closure == 'spec' else 'impl'), 'C13',
         [(l, sol_impl[i]) for l, i in zip(tie_lines, keep)],
         rule='fractionised solarcalcs (solarangles replaced by the case\'s zenith/tanzen/critOrient; '
-             'real UCMDef/Element objects on 60% of cases) vs Lean `solarcalcs`: 9 received/'
+             'real UCMDef/Element objects on 60% of cases; archetype lists of 0..3 entries, in 60% of the '
+             'lists with >= 2 entries some entries own the SAME wall / roof object or are one object) vs Lean '
+             '`solarcalcs`: 9 received/'
              'aggregate values and, in the sunlit branch, horSol, Kw, Kr, bldSol, roadSol, mr, mw; '
              'exact. Tried against the as-coded closure first, then the radiosity closure',
         classify=classify_solar)
@@ -764,10 +913,15 @@ def run(chk):
     chk.direct('beam+received-oracle(solarcalcs)', len(solars), len(keep),
                'T2/T4 evaluated on the exact results of the real solarcalcs: budget, Kw range, '
                'first incidence = beam split + sky view, exact split when the unclamped share is '
-               'a fraction, received >= 0 for admissible inputs, all-zero when dir+dif <= 0',
+               'a fraction, received >= 0 for admissible inputs, all-zero when dir+dif <= 0; wall / road / '
+               'roof receive exactly first incidence + the reflections assigned to them, also when entries of '
+               'the archetype list share their wall or roof object',
                mismatches=bad,
-               branches={k: sum(1 for c in solars if c['sun_kind'] == k)
-                         for k in ('overhead', 'consistent', 'random', 'nosun', 'edge')})
+               branches=dict(
+                   [(k, sum(1 for c in solars if c['sun_kind'] == k))
+                    for k in ('overhead', 'consistent', 'random', 'nosun', 'edge')] +
+                   [('alias:' + k, sum(1 for c in solars if c.get('alias', 'none') == k))
+                    for k in ('none',) + ALIASES]))
 
     # ---------------------------------------------------------------- infra tie + T5/T6 oracle
     infs = [gen_infra(rng) for _ in range(400 if quick else 4000)]
@@ -790,6 +944,9 @@ def run(chk):
                'width and 2 x height) and T6 (equilibrium) on the exact results of the real routine',
                mismatches=bad, branches={k: sum(1 for c in infs if c['kind'] == k)
                                          for k in ('random', 'equil', 'recip')})
+
+    # ---------------------------------------------------------------- live simulations
+    live_stock_runs(chk, violation)
 
     # ---------------------------------------------------------------- float level
     nf, fproblems, fcreation, fstats = float_pass(chk, 16 if quick else 60)
